@@ -113,6 +113,33 @@ def sym_eval(s):
     return eval(s, {"__builtins__": {}}, {})  # noqa: S307 - whitelisted characters only
 
 
+def _s1(R, x, y, z):
+    return R.negate(R.times(R.negate(x), R.negate(y)))
+
+
+def _s2(R, x, y, z):
+    return R.negate(R.negate(R.times(x, R.negate(z))))
+
+
+def _s3(R, x, y, z):
+    return R.times(R.negate(R.times(R.negate(x), R.negate(y))), R.negate(R.times(R.negate(y), R.negate(z))))
+
+
+def _s4(R, x, y, z):
+    return R.negate(R.plus(R.times(x, R.negate(y)), R.times(R.negate(x), R.times(y, z))))
+
+
+def _s5(R, x, y, z):
+    return R.plus(R.times(R.negate(R.negate(x)), y), R.times(R.negate(R.times(R.negate(x), R.negate(z))), R.negate(y)))
+
+
+def _s6(R, x, y, z):
+    return R.negate(R.times(R.negate(R.times(x, y)), R.negate(R.times(R.negate(y), R.negate(R.times(z, x))))))
+
+
+SHAPES = [_s1, _s2, _s3, _s4, _s5, _s6]
+
+
 def run_case(case):
     from problog.evaluator import Semiring, SemiringProbability, SemiringLogProbability, SemiringSymbolic
     from problog.errors import ProbLogError
@@ -183,9 +210,17 @@ def run_case(case):
                        ("plus-denotes", S.plus(sx, sy), repr(a + b)), ("times-denotes", S.times(sx, S.plus(sy, sz)), repr(a * (b + c))),
                        ("negate-denotes", S.negate(S.times(sx, sy)), repr(1 - a * b)),
                        ("times-of-negate", S.times(S.negate(sx), S.negate(sy)), repr((1 - a) * (1 - b)))]
+                # nested expressions: the symbolic result must denote what the probability semiring computes
+                for shape in SHAPES:
+                    sym.append(("nested:" + shape.__name__, shape(S, sx, sy, sz), repr(shape(P, a, b, c))))
                 for law, l, r in sym:
                     n += 1
-                    if not close(float(sym_eval(l)), float(sym_eval(r))):
+                    try:
+                        lv = float(sym_eval(l))
+                    except (SyntaxError, ValueError, TypeError, ZeroDivisionError) as e:
+                        return fail("symbolic:malformed-expression", "%s on (%r,%r,%r): expression %r cannot be evaluated: %s" % (
+                            law, a, b, c, l, short_exc(e)))
+                    if not close(lv, float(sym_eval(r))):
                         return fail("symbolic:" + law, "%s on (%r,%r,%r): %r vs %r" % (law, a, b, c, l, r))
                 n += 1
                 if not S.is_one(S.one()) or not S.is_zero(S.zero()):
